@@ -16,6 +16,7 @@ import (
 	"pgregory.net/rapid"
 
 	"verif/astx"
+	"verif/checks/c14"
 	"verif/harness"
 	"verif/inputs"
 	"verif/phpgen"
@@ -116,9 +117,15 @@ func drawTwinJob(rt *rapid.T) job {
 func drawJob(rt *rapid.T) job {
 	v := rapid.SampledFrom(px.AllVersions).Draw(rt, "version")
 	var src []byte
-	switch rapid.IntRange(0, 3).Draw(rt, "srckind") {
+	pipeMask := 0
+	switch rapid.IntRange(0, 4).Draw(rt, "srckind") {
 	case 0:
 		src, _ = inputs.Any(rt)
+	case 4:
+		// work for the name resolver: imports of every kind, aliases, references in every position —
+		// and aliases repeated in another letter case, where an order-dependent lookup has a choice
+		src = c14.DrawSource(rt, !v.IsPHP5(), true)
+		pipeMask = 8
 	case 1:
 		// heredocs whose end depends on the version's side of 7.3
 		src = []byte(rapid.SampledFrom([]string{
@@ -129,7 +136,7 @@ func drawJob(rt *rapid.T) job {
 		c := progs.Draw(rt, v, progs.StructuralOptions(v), 1, 3)
 		src = c.G.Render(c.Root, progs.Policy(rt, phpgen.PolicyFull, nil)).Src
 	}
-	return job{src: src, ver: v, pipe: rapid.IntRange(0, 31).Draw(rt, "pipeline"), nocb: rapid.IntRange(0, 3).Draw(rt, "handler") == 0}
+	return job{src: src, ver: v, pipe: rapid.IntRange(0, 31).Draw(rt, "pipeline") | pipeMask, nocb: rapid.IntRange(0, 3).Draw(rt, "handler") == 0}
 }
 
 func TestConcurrentPipelines(t *testing.T) {
@@ -205,6 +212,32 @@ func TestParseTwice(t *testing.T) {
 			if d := astx.Equal(a.Root, b.Root, astx.WithTokens|astx.WithPositions); d != "" {
 				harness.Fail(rt, "parse-twice", j.src, map[string]string{"version": j.ver.String()}, "[%s] two parses of the same input give different trees: %s", j.ver, d)
 			}
+		}
+	})
+}
+
+// TestRunRepeatedly: every observable result of a pipeline (errors, tree, printed text, dump, visited
+// methods, resolved names, formatted text) is a function of the input and the configuration: the same
+// job run four times in a row, alone, gives the same text each time ("parsing the same input twice always
+// gives identical trees and errors"; for the other operations this is the sequential base case of "equals
+// the result obtained alone" — a result that varies from run to run has no "result obtained alone").
+func TestRunRepeatedly(t *testing.T) {
+	harness.Check(t, "run-repeatedly", 3000, 120000, func(rt *rapid.T) {
+		j := drawJob(rt)
+		if rapid.IntRange(0, 3).Draw(rt, "family") == 0 {
+			j = drawTwinJob(rt)
+		}
+		first := j.run()
+		harness.Eval()
+		for i := 1; i < 4; i++ {
+			again := j.run()
+			harness.Eval()
+			if again != first {
+				harness.Fail(rt, "run-repeatedly", j.src, map[string]string{"jobs": jobsJSON([]job{j}), "mode": "repeat"}, "[%s pipe=%d nocb=%v] run %d of the same job differs from run 1: %s", j.ver, j.pipe, j.nocb, i+1, firstDiff(first, again))
+			}
+		}
+		if j.pipe&8 != 0 && j.pipe&^8 != 0 {
+			harness.NonTrivial(j.src, fmt.Sprintf("[%s pipe=%d] %q", j.ver, j.pipe, trunc(j.src, 200)))
 		}
 	})
 }
@@ -383,6 +416,17 @@ func TestReplay(t *testing.T) {
 				return
 			} else if !ok {
 				first[i] = res
+			}
+		}
+		return
+	}
+	if vi.Meta["mode"] == "repeat" {
+		first := jobs[0].run()
+		for i := 1; i < 16; i++ {
+			harness.Eval()
+			if again := jobs[0].run(); again != first {
+				harness.Failf(t, "run-repeatedly/run-repeatedly", jobs[0].src, vi.Meta, "run %d of the same job differs from run 1: %s", i+1, firstDiff(first, again))
+				return
 			}
 		}
 		return
